@@ -368,6 +368,9 @@ class HTTP(BaseComponent):
                 res.body = value.value
                 self.fire(response(res))
             elif value.errors:
+                if req.handled:
+                    return
+                req.handled = True
                 error = value.value
                 _etype, evalue, _traceback = error
                 if isinstance(evalue, RedirectException):
@@ -385,6 +388,9 @@ class HTTP(BaseComponent):
                 value.event = e
                 value.notify = True
         elif isinstance(value, tuple):
+            if req.handled:
+                return
+            req.handled = True
             _etype, evalue, _traceback = error = value
 
             if isinstance(evalue, RedirectException):
@@ -413,6 +419,9 @@ class HTTP(BaseComponent):
             req = res.request
         elif isinstance(fevent.value.parent.event, request):
             req, res = fevent.value.parent.event.args[:2]
+            if req.handled:
+                return  # this failure has been answered already
+            req.handled = True
         elif len(fevent.args[2:]) == 4:
             req, res = fevent.args[2:]
         elif len(fevent.args) == 2 and isinstance(fevent.args[0], socket):
